@@ -321,3 +321,111 @@ def raised_names(stmts):
                 e = n.exc.func if isinstance(n.exc, ast.Call) else n.exc
                 out.append((dotted(e), n))
     return out
+
+
+# ----------------------------------------------------------------------------- exception classes (stdlib introspection)
+
+def py_exc(name):
+    """python exception class for a dotted name of a builtin / stdlib exception (never repo code), else None"""
+    import builtins
+    import importlib
+    if not name:
+        return None
+    if name.startswith('builtins.'):
+        name = name[9:]
+    if '.' not in name:
+        c = getattr(builtins, name, None)
+        return c if isinstance(c, type) and issubclass(c, BaseException) else None
+    head, _, attr = name.rpartition('.')
+    if head.split('.')[0] not in ('json', 'socket', 'queue', 'os', 'binascii', 'struct', 'ast', 'select', 'ssl',
+                                  'subprocess', 'threading', 'errno', 'io', 'zlib', 'base64'):
+        return None
+    try:
+        mod = importlib.import_module(head)
+    except Exception:
+        return None
+    c = getattr(mod, attr, None)
+    return c if isinstance(c, type) and issubclass(c, BaseException) else None
+
+
+def handler_type_names(h):
+    if h.type is None:
+        return None
+    elts = h.type.elts if isinstance(h.type, ast.Tuple) else [h.type]
+    return [dotted(e) or src(e) for e in elts]
+
+
+def handler_covers(h, exc_pyclasses, module=None):
+    """does handler h catch every one of the given python exception classes"""
+    names = handler_type_names(h)
+    if names is None:
+        return True
+    hcls = []
+    for n in names:
+        if module is not None and n in module.imports:
+            n = module.imports[n]
+        c = py_exc(n)
+        if c is not None:
+            hcls.append(c)
+    return all(any(issubclass(e, c) for c in hcls) for e in exc_pyclasses)
+
+
+def covering_handler(node, exc_pyclasses, module=None, stop=None):
+    """innermost handler (of a try whose body contains node) that catches all given classes, else None"""
+    for t, part in enclosing_tries(node, stop):
+        if part == 'body':
+            for h in t.handlers:
+                if handler_covers(h, exc_pyclasses, module):
+                    return h
+    return None
+
+
+def handler_leaves_loop_or_raises(h):
+    """handler body contains return / break / raise (not inside a nested def)"""
+    for st in h.body:
+        for n in walk_local(st):
+            if isinstance(n, (ast.Return, ast.Break, ast.Raise)):
+                return True
+    return False
+
+
+def short_circuit_facts(use):
+    """isinstance facts known when `use` is evaluated, from short-circuit operators / conditional expressions
+    inside the same statement:  `not isinstance(x, dict) or x.get(...)`  =>  x is a dict at the .get"""
+    from sa.typestate import isinstance_facts
+    facts = []
+    child = use
+    for a in ancestors(use):
+        if isinstance(a, ast.stmt):
+            break
+        if isinstance(a, ast.BoolOp) and child in a.values:
+            i = a.values.index(child)
+            for prev in a.values[:i]:
+                facts.extend(isinstance_facts(prev, positive=isinstance(a.op, ast.And)))
+        if isinstance(a, ast.IfExp):
+            if child is a.body:
+                facts.extend(isinstance_facts(a.test, True))
+            elif child is a.orelse:
+                facts.extend(isinstance_facts(a.test, False))
+        child = a
+    return facts
+
+
+def membership_facts(use):
+    """`'k' in x` facts from short-circuit operands preceding `use`: list of (key_src, container_src, positive)"""
+    facts = []
+    child = use
+    for a in ancestors(use):
+        if isinstance(a, ast.stmt):
+            break
+        if isinstance(a, ast.BoolOp) and child in a.values:
+            i = a.values.index(child)
+            for prev in a.values[:i]:
+                pos_ = isinstance(a.op, ast.And)
+                for l, op, r in compare_ops(prev):
+                    if op == 'in':
+                        facts.append((l, r, pos_))
+                    elif op == 'notin':
+                        facts.append((l, r, not pos_))
+        child = a
+    return facts
